@@ -20,7 +20,7 @@ def sh(cmd, cwd, timeout=3000):
 patch = os.path.join(seed, "patch%s.diff" % k)
 demo = os.path.join(seed, "demo%s" % k)
 meta = json.load(open(os.path.join(seed, "meta%s.json" % k)))
-where = open(os.path.join(demo, "WHERE.txt")).read()
+where = open(os.path.join(demo, "WHERE.txt")).read().replace("\\\n", " ").replace("<repo>/", "").replace("<worktree>/", "")
 files = [f for f in os.listdir(demo) if f != "WHERE.txt"]
 place = {}
 for f in files:
@@ -32,7 +32,7 @@ for f in files:
 runline = None
 for line in where.splitlines():
     if ("go test" in line or "go run" in line) and "export" not in line.split("go ")[0][-8:]:
-        runline = line.strip().lstrip("$ ").strip()
+        runline = re.sub(r'^\s*(Run|Command|run)\s*:\s*', '', line.strip().lstrip("$ ").strip())
         break
 if not runline:
     print("cannot find run command"); sys.exit(2)
@@ -65,7 +65,7 @@ try:
         if m == "node":
             cmd = "go test -vet=off -count=1 %s $(go list %s ./pkg/... ./cmd/... | grep -v pkg/devnet)" % (OVL, OVL)
         elif m in ("explorer-backend", "explorer-api-server"):
-            cmd = "go test -vet=off -count=1 ./..."
+            cmd = "go test -vet=off -count=1 %s ./..." % OVL
         else:
             continue  # contract sources etc: no Go tests
         cmds.append("cd %s && %s" % (m, cmd))
